@@ -285,6 +285,9 @@ class V:
                     for j, s in enumerate(gm["selectors"]):
                         if isinstance(s, str) and pathor.fits_syntax(pathor.split(s)):
                             ok, _ = pathor.resolve(o, pathor.split(s))
+                            first = by.get(pathor.split(s)[0])
+                            if not ok and first is not None and "default" in first and len(pathor.split(s)) == 1:
+                                ok = True     # addresses an optional property omitted because it is at its default
                             if not ok:
                                 self.add("selector-addresses-nothing", path + ("granular_markings", "[%d]" % i, "selectors", "[%d]" % j),
                                          "selector %r addresses nothing" % s)
